@@ -54,6 +54,11 @@ CHECKS["C03"]=dict(engine="world", design="5/C03", note=_world_note,
 CHECKS["C06"]=dict(engine="world", design="5/C06", note=_world_note,
   text="The C03 closed loop with fault injection at the harness-owned boundaries (target update lost before/after taking effect, sidecar restart from its store, shard not ready / unreachable / failing GETs for a window, external scale change, configuration edit with late file rollout), placed at cycle boundaries and biased to cycles with in-flight transfers; after the faults stop the C03 end state must be reached within the budget: nothing stays in_transfer, duplicated or unscraped.")
 
+CHECKS["C15"]=dict(engine="disco", design="5/C15", note="Input-dominated (DESIGN 6). Trusted: the generator's tagging of which pairs must collapse / must differ.",
+  text="Seeded search: the same logical targets are fed through the real TargetsDiscovery.Run in several rounds with drawn target order, group assignment and order, group/target label split and label iteration order (map-range overlay), through re-created TargetsDiscovery instances and a child OS process; hashes must be identical everywhere, exact and meta-only duplicates must collapse in ActiveTargetsByHash, and pairs differing in exactly one component (label value, added label, address, port, path, scheme, param) must hash differently.")
+CHECKS["C02"]=dict(engine="disco", design="5/C02", note="Input-dominated (DESIGN 6): no fault kind applies. Trusted: the vendored Prometheus library (PopulateLabels, Target.URL, scrape-pool de-duplication rule as re-stated in the oracle) as the reference for 'one plain Prometheus'.",
+  text="Seeded search over scrape jobs x target groups through the chain of real parties and encodings (discovery -> JSON -> sidecar route -> injector YAML -> config.Load/TargetsFromGroup -> proxy -> request URL) against the reference computed by the Prometheus library on the original job: equal multisets of (final labels, scheme, host, path, query).")
+
 NOT_YET = {
 }
 
